@@ -12,11 +12,11 @@ skeleton *is* the decoder model the property theorems are about — so those the
 says now, not about a transcription made once. -/
 namespace FV.Sk
 
-/-- the msgp read primitives and nested decoders the hand-written decoders call (either path) -/
+/-- the msgp read primitives and nested decoders the decoders call (either path) -/
 inductive Prim
   | arrayHeader   -- ReadArrayHeaderBytes / Reader.ReadArrayHeader
   | str           -- ReadStringBytes / ReadString
-  | int64         -- ReadInt64Bytes / ReadInt64
+  | int64         -- ReadInt64Bytes / ReadInt64; also ReadIntBytes / ReadInt (`int` is 64 bits wide)
   | intf          -- ReadIntfBytes / ReadIntf
   | eventTime     -- ReadExtensionBytes(bits, &EventTime) / ReadExtension(&EventTime)
   | bin           -- ReadBytesBytes(bits, scratch) / ReadBytes(scratch)
@@ -24,41 +24,53 @@ inductive Prim
   | entryList     -- (*EntryList).UnmarshalMsg / DecodeMsg
   | options       -- (*MessageOptions).UnmarshalMsg / DecodeMsg, on the object the field points to
   | bool          -- ReadBoolBytes / ReadBool
+  | mapHeader     -- ReadMapHeaderBytes / ReadMapHeader
+  | skip          -- msgp.Skip / Reader.Skip: one value of any shape
+deriving DecidableEq, Repr
+
+/-- destinations: the count variable `sz`, nothing (`none`: a value read and dropped) and the fields of the receiver types, by
+their Go names (`OptionsNonce` = `Options.Nonce`: a field behind the Helo's options pointer; `SizeDeref` = `*z.Size`) -/
+inductive Fld | sz | none | Tag | Timestamp | Record | Options | Entries | EventStream
+  | MessageType | ClientHostname | SharedKeySalt | SharedKeyHexDigest | Username | Password | AuthResult | Reason | ServerHostname
+  | Nonce | Auth | Keepalive | Ack | OptionsNonce | OptionsAuth | OptionsKeepalive
+  | Size | SizeDeref | Chunk | Compressed
+  | other (name : String)
 deriving DecidableEq, Repr
 
 inductive Cond
   | szNotIn (a b : Nat)   -- sz != a && sz != b
   | szEq (a : Nat)        -- sz == a
   | szNe (a : Nat)        -- sz != a   (msgp-generated tuple decoders: `if zb0001 != 2`)
-  | nextNil               -- NextType(bits) == NilType; stream: `t, _ := dc.NextType(); t == NilType`
+  | nextNil               -- NextType(bits) == NilType; `t, _ := dc.NextType(); t == NilType`; msgp.IsNil(bts) / dc.IsNil()
   | nextNilOrErr          -- stream: `t, err := dc.NextType(); t == NilType || err != nil`
   | nextErr               -- `err != nil` for the error of that NextType call
-deriving DecidableEq, Repr
-
-/-- destinations: the count variable `sz` and the fields of the four receiver types, by their Go names -/
-inductive Fld | sz | Tag | Timestamp | Record | Options | Entries | EventStream
-  | MessageType | ClientHostname | SharedKeySalt | SharedKeyHexDigest | Username | Password | AuthResult | Reason | ServerHostname
-  | Nonce | Auth | Keepalive | Ack | OptionsNonce | OptionsAuth | OptionsKeepalive   -- `Options.Nonce` …: fields behind the Helo's options pointer
-  | other (name : String)
+  | fieldNil (f : Fld)    -- `recv.f == nil` for a pointer-typed field
 deriving DecidableEq, Repr
 
 /-- right-hand sides of plain assignments to a field -/
-inductive Rhs | nil | newOptions | emptyEntryList | other (src : String)
+inductive Rhs | nil | newOptions | emptyEntryList | newInt | newHeloOpts | other (src : String)
 deriving DecidableEq, Repr
 
 inductive Stmt
-  | read (dst : Fld) (p : Prim)    -- `dst, [bits,] err = <prim>; if err != nil { return …err… }`
-  | set (field : Fld) (v : Rhs)       -- `recv.field = nil | &MessageOptions{} | EntryList{}`
+  | read (dst : Fld) (p : Prim)       -- `dst, [bits,] err = <prim>; if err != nil { return …err… }`
+  | set (field : Fld) (v : Rhs)       -- `recv.field = nil | &MessageOptions{} | EntryList{} | new(int) | new(HeloOpts)`
   | ite (c : Cond) (thn : List Stmt)  -- `if c { thn }`
+  | iteElse (c : Cond) (thn els : List Stmt)  -- `if c { thn } else { els }`
+  | mapLoop (cases : List Stmt)       -- `for sz > 0 { sz--; field = <map key>; switch field { case …: …; default: … } }`; `.case`s, then `.dflt`
+  | case (key : List Nat) (body : List Stmt)  -- one `case "<key>":` of that switch
+  | dflt (body : List Stmt)           -- its `default:`
   | retErr                            -- `return …, <an error value>`
   | retRead (p : Prim)                -- `return <prim>` (its rest and its error are the function's)
-  | retOk                             -- `return bits, err` / `return nil` with `err` known to be nil
+  | retOk                             -- `return bits, err` / `return nil` / `o = bts; return` with `err` known to be nil
   | unknown (src : String)            -- anything the translator does not recognise
 
 /-- values that travel between a primitive and a field -/
 inductive V
   | nat (n : Nat) | str (b : Bytes) | i64 (i : Int) | obj (o : Obj) | et (t : Instant) | unit
   | entries (l : List EntryExt) | opts (o : Option Options) | bool (b : Bool)
+  | nilPtr                      -- the `nil` of a plain assignment
+  | optInt (o : Option Int)     -- `*int`
+  | hopts (o : Option HeloOpts) -- `*HeloOpts`
 
 /-- the fields of a receiver type, by their Go names -/
 structure Fields (σ : Type) where
@@ -67,23 +79,35 @@ structure Fields (σ : Type) where
 
 /-- the value a `set` statement assigns -/
 def setVal : Rhs → Option V
-  | .nil => some (.opts none)
+  | .nil => some .nilPtr
   | .newOptions => some (.opts (some {}))
   | .emptyEntryList => some (.entries [])
+  | .newInt => some (.optInt (some 0))
+  | .newHeloOpts => some (.hopts (some {}))
   | .other _ => none
 
-def evalCond (p : Path) (sz : Nat) (b : Bytes) : Cond → Bool
-  | .szNotIn x y => sz != x && sz != y
-  | .szEq x => sz == x
-  | .szNe x => sz != x
-  | .nextNil => isNil b
-  | .nextNilOrErr => isNil b || (p == .stream && b.isEmpty)
-  | .nextErr => p == .stream && b.isEmpty
+/-- is this pointer-typed field value nil? -/
+def isNilV : V → Option Bool
+  | .opts o => some o.isNone
+  | .optInt o => some o.isNone
+  | .hopts o => some o.isNone
+  | _ => none
+
+/-- `none`: the condition is not one about this kind of value (evaluates to a panic) -/
+def evalCond (p : Path) (sz : Nat) (b : Bytes) (fieldVal : Fld → Option V) : Cond → Option Bool
+  | .szNotIn x y => some (sz != x && sz != y)
+  | .szEq x => some (sz == x)
+  | .szNe x => some (sz != x)
+  | .nextNil => some (isNil b)
+  | .nextNilOrErr => some (isNil b || (p == .stream && b.isEmpty))
+  | .nextErr => some (p == .stream && b.isEmpty)
+  | .fieldNil f => (fieldVal f).bind isNilV
 
 /-- one primitive on the rest of the input; `cur` is the current value of the destination field (the receiver
 of a nested decoder call) -/
 def runPrim (p : Path) (cur : Option V) (b : Bytes) : Prim → Res V
   | .arrayHeader => (readArrayHeader b).map .nat
+  | .mapHeader => (readMapHeader b).map .nat
   | .str => (readString b).map .str
   | .int64 => (readInt64 b).map .i64
   | .intf => (readIntf p b).map .obj
@@ -91,11 +115,19 @@ def runPrim (p : Path) (cur : Option V) (b : Bytes) : Prim → Res V
   | .bin => (readBytes b).map .str
   | .nil => (readNil b).map fun _ => .unit
   | .bool => (readBool b).map .bool
+  | .skip => (skipP p b).map fun _ => .unit
   | .entryList => (EntryList.unmarshal p b).map .entries
   | .options =>
     match cur with
     | some (.opts (some o)) => (Options.unmarshal p o b).map fun o' => .opts (some o')
     | _ => .panic "nil pointer dereference: Options"
+
+/-- the key loop of a msgp-generated map decoder: `n` times, read a key (`ReadMapKeyZC` / `ReadMapKeyPtr`) and run the
+`switch` on it; `step key k` runs the selected case and continues with `k` -/
+def loopN {σ} (p : Path) (step : Bytes → (σ → Bytes → Res σ) → σ → Bytes → Res σ) :
+    Nat → (σ → Bytes → Res σ) → σ → Bytes → Res σ
+  | 0, k, s, b => k s b
+  | n+1, k, s, b => (readMapKey p b).bind fun key b1 => step key (fun s' b' => loopN p step n k s' b') s b1
 
 mutual
 /-- continuation-passing evaluation: `k` is what follows the statement -/
@@ -105,6 +137,7 @@ def exec {σ} (F : Fields σ) (p : Path) : Stmt → (Nat → σ → Bytes → Re
       match dst, v with
       | .sz, .nat n => k n s b'
       | .sz, _ => .panic "sz is not a count"
+      | .none, _ => k sz s b'
       | dst, v =>
         match F.put dst v s with
         | some s' => k sz s' b'
@@ -113,7 +146,19 @@ def exec {σ} (F : Fields σ) (p : Path) : Stmt → (Nat → σ → Bytes → Re
     match (setVal v).bind fun x => F.put f x s with
     | some s' => k sz s' b
     | none => .panic "assignment not understood"
-  | .ite c thn, k, sz, s, b => if evalCond p sz b c then execs F p thn k sz s b else k sz s b
+  | .ite c thn, k, sz, s, b =>
+    match evalCond p sz b (fun f => F.get f s) c with
+    | some c => if c then execs F p thn k sz s b else k sz s b
+    | none => .panic "condition on a field that is not a pointer"
+  | .iteElse c thn els, k, sz, s, b =>
+    match evalCond p sz b (fun f => F.get f s) c with
+    | some c => if c then execs F p thn k sz s b else execs F p els k sz s b
+    | none => .panic "condition on a field that is not a pointer"
+  | .mapLoop cases, k, sz, s, b =>
+    -- the loop runs `sz` down to zero; the statements after it see the count variable at 0
+    loopN p (fun key k' s' b' => execCases F p cases key (fun _ s'' b'' => k' s'' b'') 0 s' b') sz (fun s' b' => k 0 s' b') s b
+  | .case _ _, _, _, _, _ => .panic "a case outside a switch"
+  | .dflt _, _, _, _, _ => .panic "a default outside a switch"
   | .retErr, _, _, _, _ => .err
   | .retRead pr, _, _, s, b => (runPrim p none b pr).map fun _ => s
   | .retOk, _, _, s, b => .ok s b
@@ -121,6 +166,13 @@ def exec {σ} (F : Fields σ) (p : Path) : Stmt → (Nat → σ → Bytes → Re
 def execs {σ} (F : Fields σ) (p : Path) : List Stmt → (Nat → σ → Bytes → Res σ) → Nat → σ → Bytes → Res σ
   | [], k, sz, s, b => k sz s b
   | st :: rest, k, sz, s, b => exec F p st (execs F p rest k) sz s b
+/-- `switch msgp.UnsafeString(field)`: the first case whose label equals the key, else `default` -/
+def execCases {σ} (F : Fields σ) (p : Path) : List Stmt → Bytes → (Nat → σ → Bytes → Res σ) → Nat → σ → Bytes → Res σ
+  | [], _, k, sz, s, b => k sz s b            -- no case matches and there is no default: the switch does nothing
+  | .case key body :: rest, fld, k, sz, s, b =>
+    if fld = key.map UInt8.ofNat then execs F p body k sz s b else execCases F p rest fld k sz s b
+  | .dflt body :: _, _, k, sz, s, b => execs F p body k sz s b
+  | _ :: _, _, _, _, _, _ => .panic "a switch with something other than cases"
 end
 
 /-- a decoder body, run on a receiver and an input (falling off the end is not a Go function) -/
@@ -135,6 +187,7 @@ def MessageF : Fields Message where
     | .Timestamp, .i64 i => some { m with ts := i }
     | .Record, .obj o => some { m with record := o }
     | .Options, .opts o => some { m with options := o }
+    | .Options, .nilPtr => some { m with options := none }
     | _, _ => none
   get f m := match f with
     | .Options => some (.opts m.options)
@@ -146,6 +199,7 @@ def MessageExtF : Fields MessageExt where
     | .Timestamp, .et i => some { m with ts := i }
     | .Record, .obj o => some { m with record := o }
     | .Options, .opts o => some { m with options := o }
+    | .Options, .nilPtr => some { m with options := none }
     | _, _ => none
   get f m := match f with
     | .Options => some (.opts m.options)
@@ -156,6 +210,7 @@ def ForwardF : Fields Forward where
     | .Tag, .str t => some { m with tag := t }
     | .Entries, .entries l => some { m with entries := l }
     | .Options, .opts o => some { m with options := o }
+    | .Options, .nilPtr => some { m with options := none }
     | _, _ => none
   get f m := match f with
     | .Options => some (.opts m.options)
@@ -166,6 +221,7 @@ def PackedF : Fields Packed where
     | .Tag, .str t => some { m with tag := t }
     | .EventStream, .str t => some { m with stream := t }
     | .Options, .opts o => some { m with options := o }
+    | .Options, .nilPtr => some { m with options := none }
     | _, _ => none
   get f m := match f with
     | .Options => some (.opts m.options)
@@ -207,6 +263,48 @@ def PongF : Fields Pong where
     | .SharedKeyHexDigest, .str s => some { m with digest := s }
     | _, _ => none
   get _ _ := none
+
+/-! ### the msgp-generated map types -/
+
+def OptionsF : Fields Options where
+  put f v o := match f, v with
+    | .Size, .nilPtr => some { o with size := none }
+    | .Size, .optInt i => some { o with size := i }
+    | .SizeDeref, .i64 i => o.size.map fun _ => { o with size := some i }   -- `*z.Size = …` through a nil pointer is a panic
+    | .Chunk, .str s => some { o with chunk := s }
+    | .Compressed, .str s => some { o with compressed := s }
+    | _, _ => none
+  get f o := match f with
+    | .Size => some (.optInt o.size)
+    | _ => none
+
+def AckF : Fields Ack where
+  put f v m := match f, v with
+    | .Ack, .str s => some { m with ack := s }
+    | _, _ => none
+  get _ _ := none
+
+def HeloOptsF : Fields HeloOpts where
+  put f v m := match f, v with
+    | .Nonce, .str s => some { m with nonce := s }
+    | .Auth, .str s => some { m with auth := s }
+    | .Keepalive, .bool b => some { m with keepalive := b }
+    | _, _ => none
+  get _ _ := none
+
+/-- `z.Options.Nonce = …` with `z.Options == nil` is a panic -/
+def HeloF : Fields Helo where
+  put f v m := match f, v with
+    | .MessageType, .str s => some { m with mtype := s }
+    | .Options, .nilPtr => some { m with options := none }
+    | .Options, .hopts o => some { m with options := o }
+    | .OptionsNonce, .str s => m.options.map fun o => { m with options := some { o with nonce := s } }
+    | .OptionsAuth, .str s => m.options.map fun o => { m with options := some { o with auth := s } }
+    | .OptionsKeepalive, .bool b => m.options.map fun o => { m with options := some { o with keepalive := b } }
+    | _, _ => none
+  get f m := match f with
+    | .Options => some (.hopts m.options)
+    | _ => none
 
 end FV.Sk
 
